@@ -1,6 +1,6 @@
 (* Model of lib/torrent/scheduler/connstate/state.go (State) and config.go (applyDefaults), and of
    the event handlers of lib/torrent/scheduler/events.go that drive it: announceResultEvent (the
-   dial decision), connClosedEvent, failedOutgoingHandshakeEvent, failedIncomingHandshakeEvent and
+   dial decision), incomingHandshakeEvent, connClosedEvent, failedOutgoingHandshakeEvent, failedIncomingHandshakeEvent and
    the ClearBlacklist of dispatcherCompleteEvent.
    Executable definitions only; proofs live in Proof/C16.v. *)
 From Coq Require Import List NArith ZArith Bool.
@@ -75,6 +75,7 @@ Inductive op :=
 | EvFailedOut (p h : N)                        (* failedOutgoingHandshakeEvent *)
 | EvFailedIn (p h : N)                         (* failedIncomingHandshakeEvent *)
 | EvComplete (h : N)                           (* dispatcherCompleteEvent: ClearBlacklist *)
+| EvIncoming (p h : N) (nbrs : list N)         (* incomingHandshakeEvent: AddPending with the handshake's neighbours *)
 (* queries *)
 | QActive | QSaturated (h : N) | QBlacklisted (p h : N) | QSnapshot.
 
@@ -181,6 +182,7 @@ Definition step (c : cfg) (s : st) (o : op) : st * out :=
   | EvFailedOut p h => (fst (blacklist c (delete_pending s p h) p h), OUnit)              (* events.go:202-207 *)
   | EvFailedIn p h => (delete_pending s p h, OUnit)                                       (* events.go:173-175 *)
   | EvComplete h => (clear_blacklist s h, OUnit)                                          (* events.go:361 *)
+  | EvIncoming p h nbrs => let '(s', r) := add_pending c s p h nbrs in (s', OAdd r)       (* events.go:145-158 *)
   | QActive => (s, OActive (sortN (active_ids (conns s))))                                (* state.go:117-127 *)
   | QSaturated h => (s, OBool (saturated c s h))
   | QBlacklisted p h => (s, OBool (blacklisted s (h, p)))
@@ -258,22 +260,22 @@ Definition set_pending (s : st) (h : N) (ps : list N) : st :=
 
 Definition next (c : cfg) (s : st) (o : op) (r : out) : st :=
   match o, r with
-  | AddPending p h _, OAdd AddOk => mk (put (h, p) Pending (conns s)) (bl s) (now s)
+  | AddPending p h _, OAdd AddOk | EvIncoming p h _, OAdd AddOk => mk (put (h, p) Pending (conns s)) (bl s) (now s)
   | MoveToActive cn p h _, OMove MoveOk => mk (put (h, p) (Active cn) (conns s)) (bl s) (now s)
   | Blacklist p h, OBl true =>
       if c_nobl c then s else mk (conns s) (put (h, p) (now s + c_dur c) (bl s)) (now s)
   | Announce h _ _ _ _, ODial d => set_pending s h d
-  | AddPending _ _ _, _ | MoveToActive _ _ _ _, _ | Blacklist _ _, _ | Announce _ _ _ _ _, _ => s
+  | AddPending _ _ _, _ | EvIncoming _ _ _, _ | MoveToActive _ _ _ _, _ | Blacklist _ _, _ | Announce _ _ _ _ _, _ => s
   | _, _ => fst (step c s o)     (* operations without a result follow the specification *)
   end.
 
 Definition clause_ok (c : cfg) (s : st) (o : op) (r : out) : bool :=
   match o, r with
-  | AddPending p h nbrs, OAdd AddOk =>
+  | AddPending p h nbrs, OAdd AddOk | EvIncoming p h nbrs, OAdd AddOk =>
       ((c_max c <? 1) || (count h (conns s) <? c_max c))              (* capacity *)
       && negb (connected s h p)                                       (* exclusive state *)
       && (num_mutual s h nbrs <=? c_mutual c)                         (* mutual limit *)
-  | AddPending _ _ _, OAdd _ => true
+  | AddPending _ _ _, OAdd _ | EvIncoming _ _ _, OAdd _ => true
   | MoveToActive cn p h _, OMove MoveOk =>
       match lookup (h, p) (conns s) with Some Pending => true | _ => false end
   | MoveToActive _ _ _ _, OMove _ => true
